@@ -459,20 +459,23 @@ Lemma recs_at_drop_soa p t : forall l,
   = if is_nil p && (t =? RT_SOA) then [] else recs_at l p t.
 Proof.
   induction l as [|[q r] l IH]; [destruct (is_nil p && (t =? RT_SOA)); reflexivity|].
-  assert (Hc : forall l', recs_at ((q, r) :: l') p t
-                          = if lleqb q p && (zr_type r =? t) then r :: recs_at l' p t else recs_at l' p t).
-  { intro l'. unfold recs_at. cbn [filter fst snd]. destruct (lleqb q p && (zr_type r =? t)); reflexivity. }
+  remember (lleqb q p && (zr_type r =? t)) as cnd eqn:Ecnd.
+  assert (Hc : forall l', recs_at ((q, r) :: l') p t = if cnd then r :: recs_at l' p t else recs_at l' p t).
+  { intro l'. subst cnd. unfold recs_at. cbn [filter fst snd]. destruct (lleqb q p && (zr_type r =? t)); reflexivity. }
   cbn [filter fst snd]. destruct (is_nil q && (zr_type r =? RT_SOA)) eqn:Ed; cbn [negb].
   - rewrite IH. apply andb_true_iff in Ed as [Hq Hr]. destruct q; [|discriminate]. apply N.eqb_eq in Hr.
-    destruct (is_nil p && (t =? RT_SOA)) eqn:Ec; [reflexivity|]. rewrite Hc.
-    destruct (lleqb [] p && (zr_type r =? t)) eqn:E; [|reflexivity].
-    apply andb_true_iff in E as [E1 E2]. apply lleqb_eq in E1. apply N.eqb_eq in E2. subst p.
-    rewrite Hr in E2. subst t. discriminate.
+    destruct (is_nil p && (t =? RT_SOA)) eqn:Ec; [reflexivity|].
+    assert (E : cnd = false).
+    { subst cnd. apply not_true_is_false. intro E. apply andb_true_iff in E as [E1 E2].
+      apply lleqb_eq in E1. apply N.eqb_eq in E2. subst p. rewrite Hr in E2. subst t. discriminate. }
+    rewrite Hc, E. reflexivity.
   - rewrite !Hc, IH. destruct (is_nil p && (t =? RT_SOA)) eqn:Ec; [|reflexivity].
-    destruct (lleqb q p && (zr_type r =? t)) eqn:E; [|reflexivity].
-    apply andb_true_iff in Ec as [Hp Ht]. destruct p; [|discriminate]. apply N.eqb_eq in Ht.
-    apply andb_true_iff in E as [E1 E2]. apply lleqb_eq in E1. apply N.eqb_eq in E2. subst q t.
-    rewrite E2, N.eqb_refl in Ed. discriminate.
+    assert (E : cnd = false).
+    { subst cnd. apply not_true_is_false. intro E.
+      apply andb_true_iff in Ec as [Hp Ht]. destruct p; [|discriminate]. apply N.eqb_eq in Ht.
+      apply andb_true_iff in E as [E1 E2]. apply lleqb_eq in E1. apply N.eqb_eq in E2. subst q t.
+      rewrite E2, N.eqb_refl in Ed. discriminate. }
+    rewrite E. reflexivity.
 Qed.
 
 Lemma exists_node_drop_soa z q : exists_node (fz_drop_soa z) q <-> exists_node z q.
@@ -504,7 +507,7 @@ Proof.
     + destruct Hrq as [Hex [A B C D E F]]. split; [intro X; apply exists_node_drop_soa, Hex, X|].
       constructor; try assumption.
       intro t. cbn [fz_drop_soa f_norm]. rewrite recs_at_drop_soa, Hne. apply C.
-    + intro Hex. apply Hrq. apply exists_node_drop_soa in Hex. exact Hex.
+    + intro Hex. apply Hrq. exact (proj1 (exists_node_drop_soa _ _) Hex).
 Qed.
 
 (* Zone::merge on trees representing flat zones gives a tree representing fz_merge:
